@@ -42,7 +42,7 @@ def _mk_value(v):
 
 value_st = st.fixed_dictionaries({
     "kind": st.sampled_from(["A", "A", "V"]),
-    "n": st.sampled_from([3, 3, 3, 3, 2, 4]),
+    "n": st.sampled_from([3, 3, 3, 3, 2, 4, 0, 0]),
     "base": st.integers(0, 50),
     "unit": st.sampled_from(["m", "cm", "g", "s", "dimensionless"]),
     "nvec": st.integers(1, 3),
@@ -59,6 +59,7 @@ dg_op_st = st.one_of(
     st.fixed_dictionaries({"op": st.just("set"), "key": key_st, "val": value_st}),
     st.fixed_dictionaries({"op": st.just("del"), "key": key_st}),
     st.fixed_dictionaries({"op": st.just("pop"), "key": key_st}),
+    st.fixed_dictionaries({"op": st.just("get"), "key": key_st}),
     st.fixed_dictionaries({"op": st.just("get"), "key": key_st}),
     st.fixed_dictionaries({"op": st.just("getitem"), "key": key_st}),
     st.fixed_dictionaries({"op": st.just("update"), "mapping": _items_st(), "kwargs": _items_st(),
@@ -315,6 +316,8 @@ def _mk_dsval(v):
 
 
 ds_op_st = st.one_of(
+    st.fixed_dictionaries({"op": st.just("get"), "key": key_st}),
+    st.fixed_dictionaries({"op": st.just("set"), "key": key_st, "val": st.just({"t": "group", "items": []})}),
     st.fixed_dictionaries({"op": st.just("set"), "key": key_st, "val": dsval_st}),
     st.fixed_dictionaries({"op": st.just("set"), "key": key_st, "val": dsval_st}),
     st.fixed_dictionaries({"op": st.just("del"), "key": key_st}),
